@@ -46,8 +46,8 @@ SIMPLELOCK_ROWS = [
 PTRLOCK_ROWS = [
     (r"^%s::(lock|try_lock)$" % PL, PL + "::_lock", {"cas", "rmw"}, "ACQ_RMW", ""),
     (r"^%s::(lock|try_lock)$" % PL, PL + "::_lock", {"load"}, "HINT", "pre-check before the RMW"),
-    (r"^galois::substrate::internal::ptr_slow_lock$", "~^_l$", {"cas", "rmw"}, "ACQ_RMW", ""),
-    (r"^galois::substrate::internal::ptr_slow_lock$", "~^_l$", {"load"}, "HINT", "spin pre-check before the RMW"),
+    (r"^galois::substrate::internal::ptr_slow_lock$", "#0", {"cas", "rmw"}, "ACQ_RMW", ""),
+    (r"^galois::substrate::internal::ptr_slow_lock$", "#0", {"load"}, "HINT", "spin pre-check before the RMW"),
     (r"^%s::(unlock|unlock_and_clear|unlock_and_set)$" % PL, PL + "::_lock", {"store"}, "REL_STORE", ""),
     (r"^%s::unlock$" % PL, PL + "::_lock", {"load"}, "HINT", "self-load by the holder"),
     (r"^%s::(getValue|setValue|PtrLock|operator=|is_locked)$" % PL, PL + "::_lock", {"load", "store"}, "HINT",
@@ -183,7 +183,13 @@ def check_rows(ctx, fx, prefix, rows, floor=None, fn_pred=None):
                 if e["kind"] not in r[2]:
                     continue
                 sel = r[1]
-                if sel.startswith("~"):
+                if sel.startswith("#"):
+                    # the object is the function's parameter number k (whatever it is called)
+                    k = int(sel[1:])
+                    ps = f.get("params", [])
+                    if k >= len(ps) or path != ps[k]["n"]:
+                        continue
+                elif sel.startswith("~"):
                     if not re.search(sel[1:], path):
                         continue
                 elif sel.startswith("@"):
